@@ -183,7 +183,7 @@ func checkC02(p *Prog, r *Report) {
 		}
 		/* The function value may have been chosen by the function which
 		made this one (a literal which captured it). */
-		if _, isPhi := resolveFree(c.Common().Value).(*ssa.Phi); isPhi && 0 == len(c.Common().Args) {
+		if _, isPhi := p.resolveUp(c.Common().Value).(*ssa.Phi); isPhi && 0 == len(c.Common().Args) {
 			fcall = c
 		}
 	})
@@ -207,7 +207,7 @@ func checkC02(p *Prog, r *Report) {
 		if !instrDominates(wcall, fcall) {
 			rCycle.Bad(fnName(fn)+":order", posOf(fcall), "flush is not preceded by the write")
 		}
-		checkFlushSelection(rFlush, fn, fcall, wParam)
+		checkFlushSelection(p, rFlush, fn, fcall, wParam)
 	}
 
 	/* 4: error edges. */
@@ -378,14 +378,14 @@ func ioParam(fn *ssa.Function, name string) *ssa.Parameter {
 }
 
 // checkFlushSelection inspects the phi of flush functions.
-func checkFlushSelection(ru *Rule, fn *ssa.Function, fcall *ssa.Call, w ssa.Value) {
-	phi := resolveFree(fcall.Common().Value).(*ssa.Phi)
+func checkFlushSelection(p *Prog, ru *Rule, fn *ssa.Function, fcall *ssa.Call, w ssa.Value) {
+	phi := p.resolveUp(fcall.Common().Value).(*ssa.Phi)
 	/* Type assertions on w, in the function which makes the choice. */
-	w = resolveFree(w)
+	w = p.resolveUp(w)
 	var taFE, taFL *ssa.TypeAssert
 	eachInstr(phi.Parent(), func(i ssa.Instruction) {
 		ta, ok := i.(*ssa.TypeAssert)
-		if !ok || resolveFree(ta.X) != w || !ta.CommaOk {
+		if !ok || p.resolveUp(ta.X) != w || !ta.CommaOk {
 			return
 		}
 		it, ok := ta.AssertedType.Underlying().(*types.Interface)
